@@ -7,7 +7,7 @@ from pyvc import native
 def run(rep, tier, seed):
     verify_all(rep, k_modifying.specs('C12'))
     sec = native.run('b_edit', 'main', {'props': ['C12'], 'tier': tier, 'seed': seed,
-                                        'ops': ['remove', 'donor', 'slice'], 'norm': True})
+                                        'ops': ['remove', 'donor', 'slice', 'views', 'optional'], 'norm': True})
     sec['native_entry'] = ('b_edit', 'replay')
     rep.bounded(sec)
     rep.remainder = ('the hundreds of raise sites inside individual handlers after a partial splice: only the bounded '
